@@ -128,3 +128,40 @@ contract('bits.Bits.__iter__', shapes=_self_shapes(), props={'C01', 'C08'}, kind
 from pyvc.contract import REGISTRY as _R
 _R['bitstore.BitStore.__iter__'].inline = True     # generator contracts are not substituted at call sites
 _R['bits.Bits.__iter__'].inline = True
+
+
+# ---- join ---------------------------------------------------------------------------------------------------
+_JOIN_ITEMS = [(), (('obj', 'Bits', 'immutable'),), (('obj', 'BitArray', 'plain'), ('str',)), (('obj', 'BitStream', 'plain'), ('self',), ('obj', 'Bits', 'buffer')),
+               (('str',), ('bytes',))]
+
+
+def _join_shapes():
+    out = []
+    for cls, st in SELF_STATES:
+        for kinds in _JOIN_ITEMS:
+            for as_tuple in (False, True):
+                def build(S, interp, cls=cls, st=st, kinds=kinds, as_tuple=as_tuple):
+                    o = m_bits(S, interp, 'self', cls, st)
+                    items = [m_operand(S, interp, f'it{i}', k, o) for i, k in enumerate(kinds)]
+                    return [o, tuple(items) if as_tuple else items], {}
+
+                def real(vals, cls=cls, st=st, kinds=kinds, as_tuple=as_tuple):
+                    o = r_bits(vals, 'self', cls, st)
+                    items = [r_operand(vals, f'it{i}', k, o) for i, k in enumerate(kinds)]
+                    return [o, tuple(items) if as_tuple else iter(items)], {}
+                out.append(Shape(f'{cls}/{st}/' + ('+'.join(opname(k) for k in kinds) or 'empty') + ('/tuple' if as_tuple else '/iterator'), build, real))
+    return out
+
+
+@contract('bits.Bits.join', shapes=_join_shapes(), props={'C01', 'C04', 'C08'}, kind='public',
+          note="s.join(seq): the items' bits with the bits of s between consecutive items, in a new object of s's class (pos 0); the empty "
+               "sequence gives an empty object; neither s nor any item changes, and the result shares nothing with them")
+def join_spec(C, self, sequence):
+    V = spec.zeros(0)
+    first = True
+    for it in list(sequence):
+        if not first:
+            V = cat(V, bits(self))
+        V = cat(V, promote_bits(C, it))
+        first = False
+    return mk_bits(C, self.cls, V, pos=0)
